@@ -26,6 +26,9 @@ func init() {
 			"the value-kind dispatches of the printer / JSON writer / copier / comparer cover all nine value kinds or fail loudly; every printer callback is registered and the Definition/Extension sibling handlers of each type kind set the same printer state. " +
 			"Not decided: absence of panics on arbitrary bytes, positions inside the input, print∘parse round-trip equality, limit accounting (value level); termination of the recursive-descent parser itself is NOT claimed (its loops rely on a report-error-then-exit idiom that needs a consume-or-report summary this checker does not have — see DESIGN §2 C05).",
 		Mutants: []Mutant{
+			{Name: "implements clause of interface extensions not printed (the repaired defect F11)", File: "v2/pkg/astprinter/astprinter.go", Rule: "C05-R3", Key: "printer-siblings-content/InterfaceType",
+				Old: "\tif len(p.document.InterfaceTypeExtensions[ref].ImplementsInterfaces.Refs) != 0 {\n\t\tp.write(literal.IMPLEMENTS)\n\t\tp.write(literal.SPACE)\n\t\tfor i, j := range p.document.InterfaceTypeExtensions[ref].ImplementsInterfaces.Refs {",
+				New: "\tif false {\n\t\tp.write(literal.IMPLEMENTS)\n\t\tp.write(literal.SPACE)\n\t\tfor i, j := range []int{} {"},
 			{Name: "comment reader peeks instead of reading", File: lexerGo, Rule: "C05-R1", Key: "readComment",
 				Old: "\tfor {\n\t\tnext := l.readRune()\n\t\tswitch next {\n\t\tcase runes.EOF:\n\t\t\treturn\n\t\tcase runes.CARRIAGERETURN, runes.LINETERMINATOR:", New: "\tfor {\n\t\tnext := l.peekRune(false)\n\t\tswitch next {\n\t\tcase runes.EOF:\n\t\t\treturn\n\t\tcase runes.CARRIAGERETURN, runes.LINETERMINATOR:"},
 			{Name: "string reader has no EOF exit", File: lexerGo, Rule: "C05-R1", Key: "readSingleLineString",
@@ -668,4 +671,58 @@ func definitionExtensionSiblings(r *fw.Run, rule string) {
 			"the sibling handlers disagree on: "+strings.Join(diff, ", ")+" — e.g. arguments of an `extend` definition are printed with whatever delimiters the previous definition left behind, producing text that does not parse (the golden fixture hides it when the previous definition happens to set the same state)")
 	}
 	r.Expect(rule, "definition/extension handler pairs", n, 6)
+
+	// The same pairs must also print the same parts of the node: every content field of the definition struct that the
+	// Definition handler reads (through document.<Kind>Definitions[ref]) is read by the Extension handler through
+	// document.<Kind>Extensions[ref] (the extension struct embeds the definition struct), and vice versa.
+	reads := func(fi *fw.FuncInfo, slice string) map[string]bool {
+		out := map[string]bool{}
+		fw.WalkAll(fi.Decl.Body, func(nd ast.Node) bool {
+			sel, ok := nd.(*ast.SelectorExpr)
+			if !ok {
+				return true
+			}
+			ix, ok := ast.Unparen(sel.X).(*ast.IndexExpr)
+			if !ok {
+				return true
+			}
+			v, _ := fw.Field(info, ix.X)
+			if v == nil || v.Name() != slice {
+				return true
+			}
+			if fv, _ := info.Uses[sel.Sel].(*types.Var); fv != nil && fv.IsField() {
+				if named, _ := fv.Type().(*types.Named); named != nil && named.Obj().Pkg() != nil && named.Obj().Pkg().Name() == "position" {
+					return true
+				}
+				out[fv.Name()] = true
+			}
+			return true
+		})
+		return out
+	}
+	m := 0
+	for _, kind := range []string{"ObjectType", "InterfaceType", "ScalarType", "UnionType", "EnumType", "InputObjectType"} {
+		def := p.Func("astprinter", "printVisitor.Enter"+kind+"Definition")
+		ext := p.Func("astprinter", "printVisitor.Enter"+kind+"Extension")
+		if def == nil || ext == nil {
+			continue
+		}
+		m++
+		a, b := reads(def, kind+"Definitions"), reads(ext, kind+"Extensions")
+		var diff []string
+		for f := range a {
+			if !b[f] {
+				diff = append(diff, f+" (printed only for the definition)")
+			}
+		}
+		for f := range b {
+			if !a[f] && f != kind+"Definition" {
+				diff = append(diff, f+" (printed only for the extension)")
+			}
+		}
+		sort.Strings(diff)
+		r.Check(len(diff) == 0, rule, "printer-siblings-content/"+kind, ext.Pos(), "Enter"+kind+"Definition and Enter"+kind+"Extension print the same parts of the node",
+			"the sibling handlers disagree on: "+strings.Join(diff, ", ")+" — that part of an `extend` definition is parsed but never printed, so print(parse(x)) re-parses to a different document")
+	}
+	r.Expect(rule, "definition/extension handler pairs (content)", m, 6)
 }
